@@ -1,6 +1,6 @@
 import Claripy.AST.IteReloc
 import ClaripyProofs.Lemmas.AST.Typing
-import ClaripyProofs.Lemmas.AST.RulesSound2
+import ClaripyProofs.Lemmas.AST.RulesSound3
 import ClaripyProofs.Lemmas.AST.Beq
 import ClaripyProofs.Lemmas.AST.BoolWidth
 import ClaripyProofs.Props.C05
